@@ -92,6 +92,7 @@ def run(F, rep, tier):
     import c12
     c12.visit_once(F, rep)
     unsigned_sub(F, rep)
+    list_recursion(F, rep)
     index_guard(F, rep)
     parser_progress(F, rep)
     # "... or returns a non-empty list of errors": an Err that carries no error is printed as nothing and exits with 0
@@ -171,6 +172,16 @@ def parser_progress(F, rep):
             continue
         driven = any(r["token_driven"] for r in res)
         fails = [f for r in res for f in r["failures"]]
+        if p == "sylt_parser::parse_sep_end_by" and fails:
+            # the generic list parser moves its cursor only through the callbacks it is given: one turn of its loop consumes input
+            # iff the `item` callback does (the obligation its recursive form was discharged by)
+            adv = A.item_callbacks_advance()
+            rep.ob("PROGRESS", key, adv is True,
+                   "every turn of the list parser's loop runs the `item` callback, and every `item` callback handed to it consumes at "
+                   "least one token" if adv is True else
+                   "the list parser's loop advances only if its `item` callback does, and one may consume nothing: %s" % adv, ln.get("sp"))
+            proved += adv is True
+            continue
         if not driven:
             why = BOUNDED_LOOPS.get((name, i))
             if why:
@@ -1246,6 +1257,35 @@ UNSIGNED_SUB = {
     ("sylt_tokenizer::string_to_tokens", "($1[$2.end].unwrap() Sub $3)"):
         "last_newline is the character index of a newline met before this token",
 }
+
+
+def list_recursion(F, rep, rule="STACK-DEPTH"):
+    """Recursion that follows the *nesting* of the input is bounded by the nesting depth (which the property bounds).  A function
+    that calls itself once per *element of a flat list* - it returns the list, and puts one element in front of what the recursive
+    call returned - needs a stack frame per element: an enum with a few thousand variants, a long parameter list or a long
+    literal overflows the native stack (abort, no diagnostic) although nothing in it is nested."""
+    n = 0
+    for fn in F.own_fns(CRATES):
+        p_ = fn["_path"]
+        if "Vec<" not in (fn.get("ret") or "") or fn.get("_crate") != "sylt_parser":
+            continue  # the parsers: their recursion follows the token stream (the other passes follow the tree the parser built)
+        body = fn_body(fn)
+        recs = [c for c in nodes(body) if c.get("k") in ("Call", "MethodCall") and callee(c) == p_]
+        if not recs:
+            continue
+        n += 1
+        fl = Flow(fn, body)
+        res_h = set()
+        for hid, o in fl.origin.items():
+            if o.get("src") is not None and any(x is r for r in recs for x in nodes(o["src"])):
+                res_h.add(hid)
+        grows = [c for c in nodes(body, "MethodCall") if c["m"] in ("insert", "push", "push_front", "extend") and peel(c["recv"]).get("hid") in res_h]
+        rep.ob(rule, "%s|one-frame-per-list-element" % last(p_, 2), not grows,
+               "%s recurses, but not once per element of the list it returns" % last(p_, 2) if not grows else
+               "%s builds the list it returns by calling itself for the rest of the list and adding one element to the result: the "
+               "depth of the native stack is the *length* of the list - an enum with 4000 variants (nothing nested) aborts the compiler "
+               "with a stack overflow and no diagnostic" % last(p_, 2), line_of(grows[0]) if grows else fn["sp"])
+    rep.ob(rule, "census", True, "%d self-recursive functions that return a list" % n, sites=n)
 
 
 def _norm_shape(sh):
